@@ -445,6 +445,9 @@ func checkC03(c *Ctx) {
 		}
 		armOf[k.Name()] = ai
 		c.Check(!ai.panics, "R3.1", "zapcore.Field.AddTo", "arm/"+k.Name(), addTo.Pos(), "FieldType %s has an AddTo arm: no path for it reaches the unknown-type panic", k.Name())
+		if k.Name() != "SkipType" {
+			c.Check(!ai.silent, "R3.1", "zapcore.Field.AddTo", "arm-always-delivers/"+k.Name(), addTo.Pos(), "every returning path of the %s arm hands the encoder something: no payload (a nil slice, a zero value) makes the field vanish", k.Name())
+		}
 		if len(byType[k.Name()]) == 0 {
 			c.Bad("R3.1", "constructors", "literal/"+k.Name(), token.NoPos, "no constructor builds a Field of type %s", k.Name())
 		}
